@@ -58,6 +58,7 @@ func families(quick bool) []Family {
 			{Name: "core-d4", Ops: coreOps(), Depth: 4, Ctx: ctxSharedAbsOff},
 			{Name: "timing-d5", Ops: timingOps(), Depth: 5, AbsOnly: true, Ctx: ctxFresh},
 			{Name: "compound2-d3", Ops: contextOps(), Compound: compoundOps(2), Depth: 3, Ctx: ctxSharedAbsOff},
+			{Name: "rotation-timing-d5", Ops: rotationOps(false), Depth: 5, Ctx: ctxFresh, Sources: []string{"cookie", "header"}, NoLeadingTick: true},
 		}
 	}
 	return []Family{
@@ -67,6 +68,7 @@ func families(quick bool) []Family {
 		{Name: "timing-d6", Ops: timingOps(), Depth: 6, AbsOnly: true, Ctx: ctxFresh},
 		{Name: "compound2-d3", Ops: contextOps(), Compound: compoundOps(2), Depth: 3},
 		{Name: "compound3-d3", Ops: contextOps(), Compound: compoundOps(3), Depth: 3, Ctx: ctxSharedAbsOff},
+		{Name: "rotation-timing-d5", Ops: rotationOps(true), Depth: 5, Ctx: ctxFresh, NoLeadingTick: true},
 	}
 }
 
@@ -150,6 +152,14 @@ func count(l *core.Local, op Op, o *obsT, info stepInfo) {
 		}
 		if o.drewPrev {
 			l.Add("av_session_object_of_previous_request_drawn", 1)
+		}
+	}
+	// an id that went through Regenerate presented after the session's ORIGINAL absolute deadline
+	if strings.Contains(info.Outcome, "absolute-timeout(") && strings.Contains(info.Outcome, "+regenerate)") {
+		if strings.HasPrefix(info.Outcome, "getbyid ") {
+			l.Add("av_regenerated_id_past_abs_deadline_getbyid", 1)
+		} else {
+			l.Add("av_regenerated_id_past_abs_deadline_presented_"+op.API, 1)
 		}
 	}
 	if op.Act == "seq" {
@@ -249,6 +259,9 @@ func workItems(fams []Family) []workItem {
 				continue
 			}
 			for _, op := range f.letters() {
+				if f.NoLeadingTick && alphabet[op].Kind == kTick {
+					continue
+				}
 				out = append(out, workItem{fi, c, op})
 			}
 		}
@@ -298,6 +311,7 @@ func dfs(r *core.Run, f Family, cfg Cfg, hist []int, seenUser bool, l *core.Loca
 		housekeeping()
 		res := runHistory(cfg, hist, l)
 		l.Add("histories", 1)
+		l.Add("histories_"+f.Name, 1)
 		if res.NA {
 			l.Add("not_applicable", 1)
 			return
@@ -337,6 +351,7 @@ func dfsCompound(f Family, cfg Cfg, hist []int, l *core.Local) {
 		res := runHistory(cfg, hist, l)
 		l.Add("histories", 1)
 		l.Add("compound_histories", 1)
+		l.Add("histories_"+f.Name, 1)
 		if res.NA {
 			l.Add("not_applicable", 1)
 			return
@@ -424,6 +439,7 @@ func main() {
 	c := r.P.Counters
 	for _, k := range []string{"av_live_session_resumed", "av_resumed_with_data", "av_forged_id_presented", "av_idle_expired_id_presented", "av_abs_expired_id_presented", "av_ended_id_presented", "av_request_on_reused_ctx", "av_reused_ctx_other_id_same_length",
 		"av_compound_requests", "av_compound_mw_write-after-destroy", "av_compound_st_write-after-destroy", "av_compound_mw_write-after-reset", "av_compound_mw_write-after-regenerate",
+		"av_regenerated_id_past_abs_deadline_presented_mw", "av_regenerated_id_past_abs_deadline_presented_st", "av_regenerated_id_past_abs_deadline_getbyid",
 		"av_session_object_of_previous_request_drawn", "av_session_object_of_other_client_drawn", "av_session_object_of_other_client_drawn_by_resumed_session_with_data"} {
 		if c[k] == 0 && len(r.P.Violations) == 0 {
 			core.Fatal("vacuous: counter %s is zero", k)
@@ -438,6 +454,12 @@ func main() {
 		}
 		if f.Ctx != "" {
 			cf += ", " + f.Ctx
+		}
+		if f.Sources != nil {
+			cf += ", sources " + strings.Join(f.Sources, "+")
+		}
+		if f.NoLeadingTick {
+			cf += "; histories do not start with a tick"
 		}
 		d := map[string]any{"name": f.Name, "depth": f.Depth, "alphabet_size": len(f.Ops), "alphabet": opNames(f.Ops), "configurations": cf, "user_symmetry_reduction": f.Symmetric}
 		if f.Compound != nil {
@@ -479,7 +501,7 @@ func main() {
 			"shared RequestCtx: requests are handed to app.Handler() on one fasthttp.RequestCtx that is reset (user values, Request, Response) between requests exactly as fasthttp's serveConn / ctx pool do; the bytes left in its buffers are not part of the canonical state key",
 			"a session object after Destroy: what the same request reads back from it, and what a store-API Save after Destroy persists under the ids that object carried, is unspecified (statement and docs are silent) and follows the implementation; no other id may be affected",
 			"de-duplicating search: two histories that reach the same canonical key (model state, decoded storage contents, client ids, pooled Session/Middleware digest; ids renamed, times relative, A<->B swapped) are assumed to have the same futures",
-			"exactly on a deadline, and between the old and a restarted absolute deadline after Regenerate/Reset, either behaviour is accepted and the model follows the implementation",
+			"exactly on a deadline, and between the old absolute deadline and Reset time + AbsoluteTimeout after Reset, either behaviour is accepted and the model follows the implementation; Regenerate (same session, new id) never moves the absolute deadline",
 		}})
 }
 
